@@ -467,6 +467,7 @@ def _parse_line_v33(raw, system):
             'rate_a': data[6], 'rate_b': data[7], 'rate_c': data[8],
             'Vn1': system.Bus.get(src='Vn', idx=data[0], attr='v'),
             'Vn2': system.Bus.get(src='Vn', idx=data[1], attr='v'),
+            'Sn': system.config.mva,    # branch data are in per unit on the system base
         }
         out['Line'].append(param)
 
